@@ -429,9 +429,12 @@ def sensitive_edits(c):
     # 5. attributes of geometry variables
     for n in some:
         old = ds.variables[n]
-        added = with_variable(ds, n, attrs=dict(old.attrs, vmon_comment='a'))
+        # the attribute name is varied too (plain, underscore-prefixed as netCDF-Java / xarray internals write them, ...)
+        aname = pick(rng, ['vmon_comment', '_vmon_private', '_CoordinateAxisType', 'Comment', 'valid_min'])
+        c.obs.cls('attr-name:' + ('underscore' if aname.startswith('_') else 'plain'))
+        added = with_variable(ds, n, attrs={**old.attrs, aname: 'a'})
         c.differ('attr-add', added, variable=n, attribute_edit=True)
-        changed = with_variable(ds, n, attrs=dict(old.attrs, vmon_comment=pick(rng, ['b', 'a ', 'A', 'aa'])))
+        changed = with_variable(ds, n, attrs={**old.attrs, aname: pick(rng, ['b', 'a ', 'A', 'aa'])})
         c.differ('attr-change', changed, variable=n, attribute_edit=True, against=added)
         c.differ('attr-remove', with_variable(added, n, attrs=dict(old.attrs)), variable=n, attribute_edit=True, against=added)
         # value of an attribute changes its type only: 1 -> 1.0, '1'
